@@ -953,3 +953,169 @@ Section Callback.
       apply (out_trans t f c _ (scope_timeout (set_running s1 None) x)); [apply out_scope_timeout|apply out_set_running].
   Qed.
 End Callback.
+
+(* ---------------- FIFO positions: callbacks only leave the queue at its head, except cancelled timer callbacks --- *)
+Definition nontimer (h : handle) : bool :=
+  match h with HSleepDone _ _ | HTimeout _ _ => false | _ => true end.
+
+Definition rsh (a b : st) : Prop :=
+  exists P new, ready b = filter P (ready a) ++ new /\ forall h, nontimer h = true -> P h = true.
+
+Lemma filter_true {A} (l : list A) : filter (fun _ => true) l = l.
+Proof. induction l as [|h l IH]; cbn; [reflexivity|now rewrite IH]. Qed.
+
+Lemma rsh_refl a : rsh a a.
+Proof. exists (fun _ => true), []. split; [|auto]. now rewrite app_nil_r, filter_true. Qed.
+
+Lemma filter_filter {A} (P Q : A -> bool) l : filter Q (filter P l) = filter (fun x => P x && Q x) l.
+Proof.
+  induction l as [|x l IH]; cbn; [reflexivity|]. destruct (P x); cbn; [destruct (Q x); cbn; now rewrite IH|exact IH].
+Qed.
+
+Lemma rsh_trans a b c : rsh a b -> rsh b c -> rsh a c.
+Proof.
+  intros [P [n1 [E1 H1]]] [Q [n2 [E2 H2]]]. exists (fun x => P x && Q x), (filter Q n1 ++ n2). split.
+  - rewrite E2, E1, filter_app, filter_filter, app_assoc. reflexivity.
+  - intros h Hh. now rewrite (H1 h Hh), (H2 h Hh).
+Qed.
+
+Lemma rsh_append a b l : ready b = ready a ++ l -> rsh a b.
+Proof.
+  intros E. exists (fun _ => true), l. split; [|auto]. now rewrite E, filter_true.
+Qed.
+
+Lemma rsh_same a b : ready b = ready a -> rsh a b.
+Proof. intros E. apply (rsh_append a b []). now rewrite app_nil_r. Qed.
+
+Lemma rsh_kframe a b : kframe a b -> rsh a b.
+Proof. intros K. destruct (kf_ready _ _ K) as [l [E _]]. now apply (rsh_append a b l). Qed.
+
+Lemma rsh_timer_cancel a tm : rsh a (timer_cancel a tm).
+Proof.
+  exists (fun h => negb (is_timer_handle tm h)), []. split; [cbn; now rewrite app_nil_r|].
+  intros h Hh. destruct h; cbn in *; try reflexivity; discriminate.
+Qed.
+
+Lemma rsh_cancel_timeout a c : rsh a (cancel_timeout a c).
+Proof.
+  unfold cancel_timeout. destruct (s_timeout (scopes a c)); [|apply rsh_refl].
+  eapply rsh_trans; [apply rsh_timer_cancel|apply rsh_same; reflexivity].
+Qed.
+
+Lemma rsh_scope_cancel a c b : rsh a (scope_cancel a c b).
+Proof.
+  unfold scope_cancel. destruct (s_cancelled (scopes a c)); [apply rsh_refl|].
+  set (s2 := upd_scope (cancel_timeout a c) c _).
+  assert (K : rsh a s2) by (eapply rsh_trans; [apply rsh_cancel_timeout|apply rsh_same; reflexivity]).
+  destruct (s_host (scopes s2 c)); [|exact K]. eapply rsh_trans; [exact K|apply rsh_kframe, kframe_deliver_top].
+Qed.
+
+Lemma rsh_scope_timeout a c : rsh a (scope_timeout a c).
+Proof.
+  unfold scope_timeout. destruct (s_deadline (scopes a c)); [|apply rsh_refl].
+  destruct (Z.leb z (now a)); [apply rsh_scope_cancel|apply rsh_same; reflexivity].
+Qed.
+
+Lemma rsh_suspend_on a t g : rsh a (suspend_on a t g).
+Proof.
+  unfold suspend_on.
+  set (s2 := upd_task (upd_fut a g (fun x => mkFut (f_st x) (Some t))) t (tk_waiter (Some g))).
+  assert (K : rsh a s2) by (apply rsh_same; reflexivity).
+  destruct (f_st (futs a g)); try (eapply rsh_trans; [exact K|apply (rsh_append _ _ [HWake t g]); reflexivity]).
+  destruct (k_must (tasks a t)); [|exact K].
+  eapply rsh_trans; [exact K|]. eapply rsh_trans; [apply rsh_kframe, kframe_fut_complete|apply rsh_same; reflexivity].
+Qed.
+
+Lemma rsh_park a t : rsh a (park a t).
+Proof.
+  unfold park, new_fut. eapply rsh_trans; [|apply rsh_same; reflexivity].
+  eapply rsh_trans; [|apply rsh_suspend_on]. apply rsh_same; reflexivity.
+Qed.
+
+Lemma rsh_ret a t r : rsh a (fst (ret_to_puppet a t r)).
+Proof.
+  unfold ret_to_puppet. cbn [fst].
+  set (s1 := match r with RExc e => upd_task a t (tk_held (Some e)) | _ => a end).
+  assert (K1 : rsh a s1) by (unfold s1; destruct r; apply rsh_same; reflexivity).
+  eapply rsh_trans; [exact K1|]. eapply rsh_trans; [apply rsh_park|apply rsh_same; reflexivity].
+Qed.
+
+Lemma rsh_resume_simple a t fo : simple_ctl (k_ctl (tasks a t)) = true -> rsh a (fst (resume a t fo)).
+Proof.
+  intros Hs. unfold resume. pose proof (incoming_ctl a t fo) as Ec.
+  assert (K0 : rsh a (fst (incoming a t fo))) by (apply rsh_same; reflexivity).
+  destruct (incoming a t fo) as [s inc]. cbn [fst] in *. rewrite Ec.
+  destruct (k_ctl (tasks a t)) as [| |[| |x]| | | | | | |]; try discriminate.
+  - cbn [fst]. eapply rsh_trans; [exact K0|].
+    set (s1 := match inc with Some e => upd_task s t (tk_held (Some e)) | None => s end).
+    assert (K1 : rsh s s1) by (unfold s1; destruct inc; apply rsh_same; reflexivity).
+    eapply rsh_trans; [exact K1|]. eapply rsh_trans; [apply rsh_park|apply rsh_same; reflexivity].
+  - eapply rsh_trans; [exact K0|apply rsh_ret].
+  - destruct inc; [eapply rsh_trans; [exact K0|apply rsh_ret]|]. cbn [fst blocked].
+    eapply rsh_trans; [exact K0|]. apply (rsh_append _ _ [HStep t]). reflexivity.
+  - eapply rsh_trans; [exact K0|]. eapply rsh_trans; [apply rsh_timer_cancel|apply rsh_ret].
+  - eapply rsh_trans; [exact K0|]. eapply rsh_trans; [|apply rsh_ret]. destruct f; apply rsh_same; reflexivity.
+  - cbn [fst]. apply rsh_refl.
+Qed.
+
+Lemma rsh_td_tail s3 k g t : rsh s3 (td_tail s3 k g t).
+Proof.
+  unfold td_tail.
+  set (s4 := match g_fut (groups s3 g) with
+             | Some f0 => match g_tasks (groups s3 g) with [] => fut_complete s3 f0 (FRes 0) | _ :: _ => s3 end
+             | None => s3 end).
+  assert (K4 : rsh s3 s4).
+  { unfold s4. destruct (g_fut (groups s3 g)); [|apply rsh_refl].
+    destruct (g_tasks (groups s3 g)); [apply rsh_kframe, kframe_fut_complete|apply rsh_refl]. }
+  clearbody s4.
+  assert (Kc : forall a, rsh a (if eff_cancelled a (g_scope (groups a g)) then a
+                                else scope_cancel a (g_scope (groups a g)) false)).
+  { intros a. destruct (eff_cancelled a _); [apply rsh_refl|apply rsh_scope_cancel]. }
+  assert (Kxc : forall e, rsh s4 (let s5 := upd_group s4 g (fun x => gr_excs (g_excs x ++ [(t, e)]) x) in
+                                  if eff_cancelled s5 (g_scope (groups s5 g)) then s5
+                                  else scope_cancel s5 (g_scope (groups s5 g)) false)).
+  { intros e. cbv zeta. apply (rsh_trans s4 (upd_group s4 g (fun x => gr_excs (g_excs x ++ [(t, e)]) x)));
+      [apply rsh_same; reflexivity|apply Kc]. }
+  assert (Kf : forall f0 v, rsh s4 (fut_complete s4 f0 v)) by (intros; apply rsh_kframe, kframe_fut_complete).
+  eapply rsh_trans; [exact K4|].
+  destruct (k_done k) as [[v|e|e]|].
+  - destruct (k_startfut k) as [f0|]; [|apply rsh_refl]. destruct (f_st (futs s4 f0)); try apply rsh_refl. apply Kf.
+  - destruct (k_startfut k) as [f0|].
+    + destruct (f_st (futs s4 f0)); [apply Kf| | |]; (destruct (is_cancel e); [try apply Kc; try apply rsh_refl|apply Kxc]).
+    + destruct (is_cancel e); [apply Kc|apply Kxc].
+  - destruct (k_startfut k) as [f0|].
+    + destruct (f_st (futs s4 f0)); [apply Kf| | |]; (destruct (is_cancel e); [try apply Kc; try apply rsh_refl|apply Kxc]).
+    + destruct (is_cancel e); [apply Kc|apply Kxc].
+  - destruct (k_startfut k) as [f0|]; [|apply rsh_refl]. destruct (f_st (futs s4 f0)); try apply rsh_refl. apply Kf.
+Qed.
+
+(* one covered callback: the rest of the queue keeps its order, new callbacks go to the end *)
+Lemma rsh_run_head s h r :
+  ready s = h :: r ->
+  match h with HStep t' | HWake t' _ => simple_ctl (k_ctl (tasks s t')) = true | _ => True end ->
+  exists P new, ready (run_head s) = filter P r ++ new /\ forall x, nontimer x = true -> P x = true.
+Proof.
+  intros E Hk. rewrite (run_head_cons s h r E). set (s1 := set_ready s r).
+  assert (G : forall b, rsh s1 b -> exists P new, ready b = filter P r ++ new /\ forall x, nontimer x = true -> P x = true).
+  { intros b Hb. exact Hb. }
+  apply G. destruct h as [t'|t' f'|c'|t'|g tm|x tm]; cbn [fst].
+  - now apply rsh_resume_simple.
+  - now apply rsh_resume_simple.
+  - eapply rsh_trans; [apply (rsh_same s1 (set_running s1 None)); reflexivity|].
+    eapply rsh_trans; [apply rsh_kframe, kframe_deliver_top|apply rsh_same; reflexivity].
+  - rewrite run_task_done_eq. destruct (k_group (tasks s1 t')) as [g|]; [|apply rsh_same; reflexivity].
+    eapply rsh_trans; [|apply rsh_td_tail]. apply rsh_same. unfold td_struct. destruct (k_cur _); reflexivity.
+  - apply rsh_kframe, kframe_fut_complete.
+  - eapply rsh_trans; [apply (rsh_same s1 (set_running s1 None)); reflexivity|].
+    eapply rsh_trans; [apply rsh_scope_timeout|apply rsh_same; reflexivity].
+Qed.
+
+Lemma position_step s h pre h0 post :
+  ready s = h :: pre ++ h0 :: post -> nontimer h0 = true ->
+  match h with HStep t' | HWake t' _ => simple_ctl (k_ctl (tasks s t')) = true | _ => True end ->
+  exists pre' post', ready (run_head s) = pre' ++ h0 :: post' /\ length pre' <= length pre.
+Proof.
+  intros E H0 Hk. destruct (rsh_run_head s h _ E Hk) as [P [new [Er HP]]].
+  rewrite filter_app in Er. cbn [filter] in Er. rewrite (HP h0 H0) in Er.
+  exists (filter P pre), (filter P post ++ new). split; [rewrite Er, <- app_assoc; reflexivity|apply filter_length_le].
+Qed.
